@@ -107,6 +107,7 @@ type Driver struct {
 	deadlineHit bool
 	runsCapHit bool
 	replayed   int
+	pruned     int64
 	knownHit   map[string]bool
 }
 
@@ -135,7 +136,7 @@ func (d *Driver) newWorker(id int) (*Worker, error) {
 // execute performs one run.
 func (w *Worker) execute(entry *HarnessEntry, prefix []Decision, concrete map[string]string) *Run {
 	r := &Run{w: w, tc: w.tc, entry: entry, prefix: prefix, nondetN: map[string]int{}, covers: map[string]bool{},
-		concrete: concrete, maxSteps: entry.MaxSteps, now: int64(1700000000) * 1e9}
+		concrete: concrete, maxSteps: entry.MaxSteps, now: initialNow}
 	if r.maxSteps == 0 {
 		r.maxSteps = 2000000
 	}
@@ -217,6 +218,9 @@ func (d *Driver) workerLoop(w *Worker, entry *HarnessEntry, deadline time.Time) 
 
 		d.mu.Lock()
 		d.active--
+		if r.sched.pruned {
+			d.pruned++
+		}
 		d.states++
 		d.transitions += r.steps
 		d.asserts += int64(r.asserts)
@@ -394,6 +398,7 @@ func (d *Driver) writeEvidence(workers []*Worker, wall time.Duration, verdict st
 		"assertions_symbolic":           d.assertsSym,
 		"goroutines_max":                d.maxGoroutines,
 		"context_switches":              d.switches,
+		"sleep_set_blocked_runs":        d.pruned,
 		"concrete_reexecutions":         d.replayed,
 		"verdict":                       verdict,
 		"inconclusive":                  d.inconclusive,
